@@ -64,6 +64,8 @@ Judge(e) ==
       [] e.ev = "other" -> IF e.ok THEN "ok" ELSE "other-connection-disturbed"
       [] e.ev = "race" -> "data-race-in-library-code-between-connections"
       [] e.ev = "harness" -> "harness-" \o e.what
+      \* the driver's watchdog: the case was still running (no event for a minute, or the heap beyond 6 GiB)
+      [] e.ev = "runaway" -> "library-call-does-not-return"
       [] OTHER -> "unknown-event"
 
 Init == l = 1 /\ streams = <<>> /\ handler = "device" /\ delivered = <<>> /\ outAll = <<>> /\ dead = <<>>
